@@ -81,7 +81,7 @@ EXTRA = {
  "C11": " Files of 16 lengths around the declared size go through the loader main() uses; for whatever it accepts, every bank is selected and read across its whole window. Device-register histories: generated stores to 0xFF00-0xFF7F / 0xFFFF interleaved with time, then every listed register written with a value set.",
  "C12": " Executed view: after every write of generated histories the interpreter build and the jit build (cache kept warm) execute LD BC,nn at 0x3FFE and LD B,n at 0x3FFF, whose operand byte at 0x4000 must be the visible bank's stamp; across a restart of the translation area (C03's restart probe) the code that runs under bank 1 must be bank 1's.",
  "C13": " Program layer: generated programs on a whole core in three stepping modes; models::timer, fed with the reference machine's bus writes and clocks per step, must agree with DIV/TIMA/TMA/TAC/IF bit 2 after every step. Batches go up to 2 000 000 clocks (closed-form reference for long ones).",
- "C14": " Program layer: generated programs on a whole core in three stepping modes; LY, STAT and IF bits 0-1 must follow models::lcd at the delivered total after every step (with DMA, HALT and STOP in the programs). Batches go up to 2 000 000 clocks (28 frames).",
+ "C14": " Third level: the bus level with TIMA overflowing every 16 clocks, so that LCD events share their catch-up batch with a timer request (walk and generated histories). Program layer: generated programs on a whole core in three stepping modes; LY, STAT and IF bits 0-1 must follow models::lcd at the delivered total after every step (with DMA, HALT and STOP in the programs). Batches go up to 2 000 000 clocks (28 frames).",
  "C15": " Whole-core layer: the scene is built by a guest program (direct stores or OAM DMA) in three stepping modes; two frames later the presented buffer must be the reference composition. Earlier frames may rewrite the tile data during the vertical blank.",
  "C16": " Program layer: DMA left running under register code, long blocks, HALT and STOP on a whole core in three stepping modes; all 160 OAM bytes must match the byte-per-machine-cycle model after every step.",
  "C17": " Program layer: generated programs with injected button events on a whole core; P1 and IF bit 4 must follow models::joypad after every step (the request survives the dispatch of other sources).",
